@@ -67,7 +67,7 @@ WF_DYN = [
     ("wf.height", "H >= 1 and H <= 256 and D <= 65535"),
     ("wf.top", "stacks_top[0] < H"),
     ("wf.nonempty", "forall(d, 0, D, shr_domains_stack[stacks_top[0], d, MIN] <= shr_domains_stack[stacks_top[0], d, MAX])"),
-    ("wf.records", "forall(l, 0, H, dom_update_stack[l, DOM_UPDATE_IDX] < D and dom_update_stack[l, DOM_UPDATE_EVENTS] < 8)"),
+    ("wf.records", "forall(l, 0, stacks_top[0], dom_update_stack[l, DOM_UPDATE_IDX] < D and dom_update_stack[l, DOM_UPDATE_EVENTS] < 8)"),
 ]
 TOP = "stacks_top[0]"
 SS, SS0 = "shr_domains_stack", "old(shr_domains_stack)"
